@@ -15,6 +15,10 @@ CHECKS['C03'] = dict(engine='histmc', category='model_checking', section='3/C03'
    technique='explicit-state breadth-first search over all mutation histories up to a depth, each history replayed on a fresh real kvgraph (over the memkv ordered-map model) and compared with a reference graph model after every step',
    text='Every history of the ~50-operation alphabet (graph create/delete, single/batched/bulk adds incl. relabel, re-endpoint, invalid elements, deletes of present/absent ids, second graph for isolation) up to depth 5 (quick) / 7 (thorough) is executed on the real code; after every step the whole observation battery (lookups, listings, in/out neighbours and incident edges under 4 label filters, label scans and listings, graph list, return value, timestamps of every graph) must equal the model. States are deduplicated on model state + raw key dump + taint set, so leaked garbage keys are never merged away.',
    note='Reference model gmodel (last write wins, cascading vertex delete, isolation). Store is memkv, bound to the real drivers by C10. A failing batch may apply nothing or exactly its valid elements. Behind a known defect the corrupted observation components are masked (taints) so that the search continues; evidence lists the known findings hit.')
+CHECKS['C04'] = dict(engine='histmc', category='fault_enumeration', section='3/C04',
+   technique='exhaustive crash-point enumeration at the key-value write interface over every state of a bounded breadth-first history search, plus explicit-state search with a restart operation inserted at every position',
+   text='Part A: the C03 search with a Reopen operation in the alphabet (depth 5 quick / 7 thorough): a restart at every position of every history, everything observed afterwards must equal the never-stopped model. Part B: for every state of a depth-4 (6) search x every mutating call x a crash before each top-level KV write of the call (write count measured per call, up to 11 for DeleteGraph), the surviving store is reopened and must be self-consistent (every observation equals that of the graph rebuilt from the surviving elements), keep every acknowledged element, and leave each addressed element in its before- or after-state.',
+   note='Crash granularity is the KVInterface write call (atomic per the property text); memkv under a counting fault wrapper; reopen = new kvgraph on the same store. Components already corrupted by a known C03 defect in the pre-crash history are masked.')
 NA_REASON = 'check not built yet in this session (planned in DESIGN.md section 3); nothing is claimed for it'
 
 m = {
